@@ -165,19 +165,48 @@ class BinStream:
 
 
 class SymBytesList(bytes):
-    """what read() of a binary stream returns when some bytes are symbolic: only its type matters to get_text_from"""
+    """a bytes object some of whose bytes are symbolic (what read() of a binary stream returns, or what a caller
+    hands to loads): isinstance(x, bytes) holds; decode() is strict UTF-8 over the byte domain of this harness
+    (0-127 and the bytes 248-255 that no UTF-8 sequence contains)"""
 
     def __new__(cls, data):
         self = bytes.__new__(cls, b"?")
         self.data = data
         return self
 
+    def decode(self, encoding="utf-8", errors="strict"):
+        from .. import cmodels
+        out = ""
+        for i, b in enumerate(self.data):
+            if not bool(b < 128):
+                raise UnicodeDecodeError("utf-8", b"\xff", 0, 1, "invalid start byte [symbolic, position %d]" % i)
+            out = out + (chr(b) if isinstance(b, int) else cmodels.sym_chr(b))
+        return out
+
+
+class IOShim:
+    """io as the instrumented pvl sees it: BytesIO over a bytes object with symbolic content is the stub stream"""
+
+    def __getattr__(self, n):
+        return getattr(io, n)
+
+    @staticmethod
+    def BytesIO(initial=b""):
+        if isinstance(initial, SymBytesList):
+            return BinStream(list(initial.data))
+        return io.BytesIO(initial)
+
 
 class TextStream:
-    """text-mode stream: read() decodes everything or raises UnicodeDecodeError; read(1) yields characters"""
+    """io.TextIOWrapper (UTF-8, strict) over a binary stream, as documented and as CPython implements it: the
+    bytes are decoded a CHUNK at a time (8192 bytes - more than any stream of this harness), so read(1) already
+    raises UnicodeDecodeError when an undecodable byte lies anywhere in the rest of the stream; the underlying
+    binary stream is available as .buffer and follows seek()"""
+    CHUNK = 8192
 
     def __init__(self, data, fail):
         self.data, self.pos, self.fail = data, 0, fail
+        self.buffer = BinStream(data)
 
     def readable(self):
         return True
@@ -187,18 +216,22 @@ class TextStream:
 
     def seek(self, p):
         self.pos = p
+        self.buffer.pos = p
 
     def read(self, n=-1):
         from .. import cmodels
         if n == 1:
             if self.pos >= len(self.data):
                 return ""
+            for b in self.data[self.pos:self.pos + self.CHUNK]:
+                if not bool(b < 128):
+                    raise UnicodeDecodeError("utf-8", b"\xff", 0, 1, "invalid start byte")
             b = self.data[self.pos]
-            if not bool(b < 128):
-                raise UnicodeDecodeError("utf-8", b"\x80", 0, 1, "invalid start byte")
             self.pos += 1
+            self.buffer.pos = min(len(self.data), self.pos + self.CHUNK)
             return chr(b) if isinstance(b, int) else cmodels.sym_chr(b)
         rest = self.data[self.pos:]
+        self.buffer.pos = len(self.data)
         for b in rest:
             if not bool(b < 128):
                 raise UnicodeDecodeError("utf-8", b"\x80", 0, 1, "invalid start byte")
@@ -217,15 +250,29 @@ class Streams(Harness):
 
     @property
     def bounds(self):
-        return "entry %s, label %s followed by %d symbolic bytes (0-255)" % (self.entry, self.label, self.n)
+        return "entry %s, label %s followed by %d symbolic bytes (0-255)%s" % (
+            self.entry, self.label, self.n, (", stream positioned after a header of %d symbolic bytes" % self.offset)
+            if getattr(self, "offset", 0) else "")
 
     def inputs(self, ctx):
-        return {"tail": [SymInt(ctx.fresh_int("b%d" % i, 0, 255)) for i in range(self.n)]}
+        tail = [SymInt(ctx.fresh_int("b%d" % i, 0, 255)) for i in range(self.n)]
+        if self.entry in ("get_text_text", "load_text", "loads_bytes"):
+            # UTF-8 decoding of the whole is involved: keep to bytes whose validity does not depend on their
+            # neighbours (ASCII, and 248-255 which no UTF-8 sequence contains)
+            import z3
+            for b in tail:
+                ctx.assume(z3.Or(b.z < 128, b.z >= 248))
+        inp = {"tail": tail}
+        if getattr(self, "offset", 0):
+            inp["header"] = [SymInt(ctx.fresh_int("h%d" % i, 0, 255)) for i in range(self.offset)]
+        return inp
 
     def prop_fn(self, L, inp):
         tail = list(inp["tail"])
         label = LABELS[self.label] + "END\n"
         data = [ord(c) for c in label] + tail
+        if L.pkg == "pvl" and Ctx.cur is not None and getattr(L.pvl, "io", None) is io:
+            L.pvl.io = IOShim()
         # spec: the text is the longest prefix of bytes below 128 (one byte at a time can only decode ASCII)
         k = 0
         while k < len(tail) and bool(tail[k] < 128):
@@ -234,6 +281,24 @@ class Streams(Harness):
         exp_text = label
         for b in tail[:k]:
             exp_text = exp_text + (chr(b) if isinstance(b, int) else cmodels.sym_chr(b))
+        off = getattr(self, "offset", 0)
+        if off:
+            # the caller has already read (or skipped) a header of *off* arbitrary bytes: the stream stands at the label
+            header = list(inp["header"])
+
+            def positioned(stream_cls, *a):
+                st = stream_cls(header + data, *a)
+                st.seek(off)
+                return st
+            if self.entry == "get_text_binary":
+                got = L.pvl.get_text_from(positioned(BinStream))
+                return Outcome("agree", str_eq(got, exp_text), {"text": got})
+            if self.entry == "get_text_text":
+                got = L.pvl.get_text_from(positioned(TextStream, False))
+                return Outcome("agree", str_eq(got, exp_text), {"text": got})
+            expect = L.pvl.loads(label)
+            m = L.pvl.load(positioned(BinStream) if self.entry == "load_binary" else positioned(TextStream, False))
+            return Outcome("agree", same_module(m, expect), {"module": snap(m)})
         if self.entry == "decode_by_char":
             got = L.pvl.decode_by_char(BinStream(data))
             return Outcome("agree", str_eq(got, exp_text), {"text": got})
@@ -244,6 +309,13 @@ class Streams(Harness):
             got = L.pvl.get_text_from(TextStream(data, False))
             return Outcome("agree", str_eq(got, exp_text), {"text": got})
         expect = L.pvl.loads(label)
+        if self.entry == "loads_bytes":
+            arg = SymBytesList(data) if any(not isinstance(b, int) for b in data) else bytes(data)
+            try:
+                m = L.pvl.loads(arg)
+            except UnicodeDecodeError as e:
+                return Outcome("raised", False, {"exception": "UnicodeDecodeError"})
+            return Outcome("agree", same_module(m, expect), {"module": snap(m)})
         stream = BinStream(data) if self.entry == "load_binary" else TextStream(data, False)
         m = L.pvl.load(stream)
         return Outcome("agree", same_module(m, expect), {"module": snap(m)})
@@ -316,7 +388,10 @@ def obligations(tier):
                     continue
                 obs.append(EndTail(dialect=d, label=lab, n=n))
             obs.append(EndTail(dialect=d, label=lab, n=1 if quick else 2, sep="forbidden"))
-    for entry in ("decode_by_char", "get_text_binary", "get_text_text", "load_binary", "load_text"):
+    for entry in ("get_text_binary", "get_text_text", "load_binary", "load_text"):
+        for n in ((0, 2) if quick else (0, 1, 3)):
+            obs.append(Streams(entry=entry, label="flat", n=n, offset=3))
+    for entry in ("decode_by_char", "get_text_binary", "get_text_text", "load_binary", "load_text", "loads_bytes"):
         for n in ((0, 1, 3) if quick else (0, 1, 2, 3, 4, 6)):
             obs.append(Streams(entry=entry, label="flat", n=n))
     for d in ("PVL", "ODL", "PDS3", "ISIS"):
